@@ -7,6 +7,7 @@ import (
 	"strings"
 
 	"github.com/AdguardTeam/urlfilter"
+	"github.com/AdguardTeam/urlfilter/filterlist"
 	"github.com/AdguardTeam/urlfilter/rules"
 
 	"verifsim/core"
@@ -59,6 +60,8 @@ func RunC13(ch *core.Chooser, env *Env) *Outcome {
 		runtime.GC()
 	}()
 
+	filterlist.VerifSetHooks(filterlist.VerifHooks{Yield: core.MainHooks()})
+	defer filterlist.VerifSetHooks(filterlist.VerifHooks{})
 	var e *workload.Engines
 	if perr := safely(func() { e = workload.NewEngines(sub.Storage) }); perr != "" {
 		out.Invalid, out.InvalidReason = true, perr
